@@ -321,12 +321,46 @@ class Foot:
             self.stmt(s['body'])
             self.loop_ctx.pop()
             self.env.pop(ivid, None)
+        elif k == 'while' and self._while_as_for(s) is not None:
+            self.stmt(self._while_as_for(s))
         elif k in ('while', 'do', 'switch'):
             raise Unsupported('%s statement at %s' % (k, loc_str(s)))
         elif k in ('null', 'break', 'continue'):
             return
         else:
             raise Unsupported('statement %s at %s' % (k, loc_str(s)))
+
+    def _while_as_for(self, s):
+        """`while (iv OP bound) { ...; iv++; }` with iv a local holding a known constant and stepped only by the last statement of the body
+        is the `for` it abbreviates: returns that `for` node, or None"""
+        c = strip(s.get('c')) if s.get('c') else None
+        if not c or c.get('k') != 'bin':
+            return None
+        l = strip(c['lhs'])
+        while isinstance(l, dict) and l.get('k') in ('cast', 'load'):
+            l = strip(l['e'])
+        if not (isinstance(l, dict) and l.get('k') == 'ref' and l.get('rk') == 'local'):
+            return None
+        ivid = l['id']
+        cur = self.env.get(ivid)
+        if not (cur and cur[0] == 'int' and not isinstance(cur[1], IvTerm) and cur[1].is_const()):
+            return None
+        body = s.get('body') or {}
+        stmts = list(body.get('body', [])) if body.get('k') == 'compound' else [body]
+        if not stmts or stmts[-1].get('k') != 'expr':
+            return None
+        last = strip(stmts[-1]['e'])
+        if not (last.get('k') == 'un' and last.get('op') in ('++', '--') and strip(last['e']).get('id') == ivid):
+            return None
+        rest = {'k': 'compound', 'l': body.get('l'), 'body': stmts[:-1]}
+        for x in walk(rest):
+            if isinstance(x, dict) and (x.get('k') in ('continue',) or
+                                        (x.get('k') == 'assign' and strip(x['lhs']).get('id') == ivid) or
+                                        (x.get('k') == 'un' and x.get('op') in ('++', '--') and strip(x['e']).get('id') == ivid)):
+                return None
+        init = {'k': 'decl', 'l': s.get('l'), 'vars': [{'id': ivid, 'name': l.get('name'), 't': l.get('t'),
+                                                        'init': {'k': 'lit', 'cv': cur[1].c, 't': l.get('t'), 'l': s.get('l')}, 'l': s.get('l')}]}
+        return {'k': 'for', 'l': s.get('l'), 'init': init, 'c': s['c'], 'inc': stmts[-1]['e'], 'body': rest}
 
     def _unroll_constant_loop(self, s, ivid, c, inc):
         """a `for` with a constant start, a constant bound and a unit / constant step in either direction: its body is interpreted once per
